@@ -88,3 +88,4 @@ try:
 except Exception:
     pass
 _p("C11", assumptions=COMMON_VERUS_ASSUMPTIONS, not_covered=[])
+_p("C09", assumptions=COMMON_VERUS_ASSUMPTIONS, not_covered=[])
